@@ -77,12 +77,27 @@ TCAdd ==
          /\ rq[t.r].q = t.f
          /\ CacheAdd(t.r)
 
+\* a request whose validation panicked (nil RuleFunc; only possible with the
+\* per-request swap): the recover hook is observed, then the transport-level
+\* answer (Server.ServeHTTP answers 422 with an error; in direct mode the
+\* driver notes "panic")
+TRecover ==
+  /\ IsEvent("H")
+  /\ LET t == Trace[l] IN t.k = "recover" /\ t.r \in Reqs /\ pc[t.r] = "panicked"
+  /\ UNCHANGED vars
+TPanicResp ==
+  /\ IsEvent("H")
+  /\ LET t == Trace[l]
+     IN  /\ t.k = "resp" /\ t.d \in {"panic", "errors"} /\ t.r \in Reqs /\ pc[t.r] = "panicked"
+         /\ pc' = [pc EXCEPT ![t.r] = "done"]
+  /\ UNCHANGED <<cfg, hdr, arrs, cache, rq, todo, log, tmp, glog>>
+
 \* steps of the code that are not logged
 TSilent == l' = l /\ \E r \in Reqs : Validate(r) \/ RuleStep(r)
 
 TEnd == IsEvent("End") /\ Quiet /\ UNCHANGED vars
 
-TraceNext == TScenario \/ TReq \/ THook \/ TCGet \/ TCAdd \/ TSilent \/ TEnd
+TraceNext == TScenario \/ TReq \/ THook \/ TCGet \/ TCAdd \/ TRecover \/ TPanicResp \/ TSilent \/ TEnd
 
 TraceSpec == TraceInit /\ [][TraceNext]_tvars
 
